@@ -73,10 +73,21 @@ def to_fix_result(r):
 
 
 def run_group(g):
+    """Array conversions run inside the ambient np.errstate the group names (default: numpy's own)."""
+    if g.get("errstate"):
+        with np.errstate(**g["errstate"]):
+            return run_group_inner(g)
+    return run_group_inner(g)
+
+
+def run_group_inner(g):
     kind, s, n, f = g["kind"], g.get("signed"), g.get("n_bits"), g.get("n_frac")
+    # scalar inputs may be handed over as numpy scalars: floats of a given type, words of a given integer type
+    ftype = getattr(np, g["scalar_type"]) if g.get("scalar_type") else float
+    wtype = getattr(np, g["word_dtype"]) if g.get("word_dtype") else int
     if kind == "fp":
         conv, err = construct(tc.float_to_fp, None, s, n, f)
-        return [err if err else guarded(lambda: int(conv(b2f(b)))) for b in g["xs"]]
+        return [err if err else guarded(lambda: int(conv(ftype(b2f(b))))) for b in g["xs"]]
     if kind == "back":
         back, e1 = construct(tc.fp_to_float, None, f)
         conv, e2 = construct(tc.float_to_fp, None, s, n, f)
@@ -85,7 +96,7 @@ def run_group(g):
             if e1:
                 out.append([e1, e1])
                 continue
-            x = guarded(lambda: back(v))
+            x = guarded(lambda: float(back(wtype(v))))
             if isinstance(x, str):
                 out.append([x, x])
             else:
@@ -94,14 +105,14 @@ def run_group(g):
     if kind == "fix":
         old, e1 = construct(tc.float_to_fix, "fail0", s, n, f)
         new, e2 = construct(tc.float_to_fp, None, s, n, f)
-        return [[e1 if e1 else guarded(lambda: int(old(b2f(b)))),
-                 e2 if e2 else guarded(lambda: int(new(b2f(b))))] for b in g["xs"]]
+        return [[e1 if e1 else guarded(lambda: int(old(ftype(b2f(b))))),
+                 e2 if e2 else guarded(lambda: int(new(ftype(b2f(b)))))] for b in g["xs"]]
     if kind == "unfix":
         old, e1 = construct(tc.fix_to_float, "fail0", s, n, f)
         new, e2 = construct(tc.fp_to_float, None, f)
         out = []
         for w, v in g["wv"]:
-            a = e1 if e1 else guarded(lambda: old(w))
+            a = e1 if e1 else guarded(lambda: float(old(wtype(w))))
             b = e2 if e2 else guarded(lambda: new(v))
             out.append([a if isinstance(a, str) else f2b(a), b if isinstance(b, str) else f2b(b)])
         return out
